@@ -3,6 +3,7 @@
 usage: confirm_seeds.py <agent worktree> <ID>...   -> copies confirmed seeds to /verif/seeded/A-<ID>-<n>/"""
 import json, os, shutil, subprocess, sys, xml.etree.ElementTree as ET
 WT = '/tmp/wt-verify'
+PREFIX = os.environ.get('SEED_PREFIX', 'A')
 def sh(cmd, **kw):
     return subprocess.run(cmd, shell=True, stdout=subprocess.PIPE, stderr=subprocess.STDOUT, **kw)
 def baseline():
@@ -41,10 +42,10 @@ for pid in ids:
     ok = r0.returncode == 0 and ap.returncode == 0 and r1.returncode == 1 and not missing
     print(pid, 'clean rc=%d patched rc=%d apply=%d baseline-missing=%d -> %s' % (r0.returncode, r1.returncode, ap.returncode, len(missing), 'CONFIRMED' if ok else 'NOT CONFIRMED'))
     if ok:
-        dst = '/verif/seeded/A-%s' % pid
+        dst = '/verif/seeded/%s-%s' % (PREFIX, pid)
         os.makedirs(dst, exist_ok=True)
         for f in ('patch.diff', 'demo.py', 'notes.md'):
             shutil.copy(os.path.join(d, f), os.path.join(dst, f))
-        json.dump({'id': 'A-%s' % pid, 'property': [pid], 'origin': 'independent sub-agent (given only the property text and its own worktree)',
+        json.dump({'id': '%s-%s' % (PREFIX, pid), 'property': [pid], 'origin': 'independent sub-agent (given only the property text and its own worktree)',
                    'needs': '', 'confirmed': 'scratch worktree %s: demo exit 0 clean, exit 1 patched (%s), baseline 308 stable tests all pass with the patch' % (WT, r1.stdout.decode()[-200:].strip().replace('\n', ' | ')),
                    'checks': {}}, open(os.path.join(dst, 'meta.json'), 'w'), indent=1)
